@@ -470,7 +470,6 @@ pub mod proofs {
     // interrupt before each shim operation).  The index of the boundary is a
     // concrete loop counter, so each run is folded by symex.
     // ------------------------------------------------------------------
-    const MAXP: usize = 4;
     static mut NESTED_OP: u8 = 1; // 1 = send, 2 = recv
     fn enum_interrupt(kind: u8, _var: usize) {
         if kind != vshim::OP_AFTER_CAS || !vshim::is_nth_point() {
@@ -493,10 +492,29 @@ pub mod proofs {
             SENT_DEPTH = [0; NTAG];
         }
     }
+    /// every shim point (before each queue-word load / CAS / cell access) and every
+    /// after-CAS boundary, not only the latter
+    fn enum_interrupt_all(_kind: u8, _var: usize) {
+        if !vshim::is_nth_point() {
+            return;
+        }
+        vshim::consume_interrupt();
+        let ch = unsafe { &*CH };
+        if unsafe { NESTED_OP } == 1 {
+            do_send(ch);
+        } else {
+            do_recv(ch);
+        }
+    }
     fn enumerate_points(queued: usize, outer_is_send: bool, nested_op: u8) {
+        enumerate_points_with(queued, outer_is_send, nested_op, enum_interrupt, 4)
+    }
+    fn enumerate_points_with(queued: usize, outer_is_send: bool, nested_op: u8, hook: fn(u8, usize), maxp: usize) {
+        #[allow(non_snake_case)]
+        let MAXP = maxp;
         unsafe {
             NESTED_OP = nested_op;
-            vshim::HOOKS.interrupt = enum_interrupt;
+            vshim::HOOKS.interrupt = hook;
             vshim::HOOKS.stuck = stuck;
             vshim::ST::nest_post_points = true;
         }
@@ -570,6 +588,32 @@ pub mod proofs {
         enumerate_points(2, false, 2);
     }
     // (send() on a full channel performs no successful CAS: nothing to enumerate)
+
+    /// A complete recv (the consumer thread) at EVERY point of a send - before each
+    /// queue-word load, each CAS and the cell access, and right after each
+    /// successful CAS - enumerated by a concrete index: e.g. between the load of
+    /// the full-queue word and its CAS, which makes the CAS fail and the retry run
+    /// on a queue the consumer has shifted meanwhile.
+    #[kani::proof]
+    #[kani::stub(core::hint::spin_loop, crate::common::spin_stub)]
+    #[kani::unwind(12)]
+    pub fn c08_enumall_recv_in_send() {
+        enumerate_points_with(2, true, 2, enum_interrupt_all, 9);
+    }
+    /// the same with a send as the nested operation (a handler interrupting a send)
+    #[kani::proof]
+    #[kani::stub(core::hint::spin_loop, crate::common::spin_stub)]
+    #[kani::unwind(12)]
+    pub fn c08_enumall_send_in_send() {
+        enumerate_points_with(2, true, 1, enum_interrupt_all, 9);
+    }
+    /// and a send nested at every point of a recv
+    #[kani::proof]
+    #[kani::stub(core::hint::spin_loop, crate::common::spin_stub)]
+    #[kani::unwind(12)]
+    pub fn c08_enumall_send_in_recv() {
+        enumerate_points_with(2, false, 1, enum_interrupt_all, 9);
+    }
 
     // outer operation / nested operation (a signal handler only ever sends)
     #[kani::proof]
